@@ -26,7 +26,7 @@ def design(ctx, tier):
     for nu, nv in sizes:
         cfg = tlc.make_cfg(constants=dict(NU=nu, NV=nv), spec="Spec", invariants=["AssertsHold", "Koenig"],
                            properties=["NoRevisit", "Terminates"])
-        r = tlc.run("Bipartite", cfg, coverage=True, timeout=3000)
+        r = tlc.run("Bipartite", cfg, vacuity=True, timeout=3000)
         ctx.add_tlc(r, f"Bipartite {nu}x{nv} all graphs x all maximum matchings x all pop orders")
         if r["violated"]:
             ctx.violation(f"C20:spec:{r['violated']}", f"Bipartite design model violates {r['violated']}", {"tlc": r.get("error_text", "")[:3000]})
